@@ -888,9 +888,9 @@ pub fn project_for(seed: u64, idx: u64) -> (Project, [bool; 8], bool, usize) {
     (proj, on, crash, len)
 }
 
-pub fn run_history(sb: &Sandbox, proj: &Project, ops: &[Op], final_phase: bool) -> HistoryResult {
+fn new_world<'a>(sb: &'a Sandbox, proj: &Project) -> World<'a> {
     sb.clear();
-    let mut w = World {
+    let w = World {
         sb,
         proj: proj.clone(),
         undo: Vec::new(),
@@ -908,6 +908,11 @@ pub fn run_history(sb: &Sandbox, proj: &Project, ops: &[Op], final_phase: bool) 
     w.write_sources(&all);
     sb.mkdir("store");
     sb.mkdir("store0");
+    w
+}
+
+pub fn run_history(sb: &Sandbox, proj: &Project, ops: &[Op], final_phase: bool) -> HistoryResult {
+    let mut w = new_world(sb, proj);
     for (i, op) in ops.iter().enumerate() {
         w.op_index = i;
         w.st.ops += 1;
@@ -1148,6 +1153,44 @@ pub fn run(opts: &Opts) -> i32 {
         violations.extend(acc);
     }
     ev.evaluations += procs;
+    // racing processes
+    let nrace = opts.n(150, 6000);
+    let races = harness::parallel_with(
+        nrace,
+        opts.workers.min(8),
+        |w| Sandbox::new(&format!("c15r{w}")).expect("sandbox"),
+        |sb, i| race_once(sb, opts.seed, i as u64),
+    );
+    let mut race_distinct = BTreeSet::new();
+    let (mut race_ok, mut race_rejected, mut race_switches) = (0u64, 0u64, 0u64);
+    for r in races.into_iter().flatten() {
+        ev.evaluations += r.procs;
+        race_distinct.insert(r.schedule_fp.clone());
+        race_switches += r.switches as u64;
+        if r.reader_ok {
+            race_ok += 1;
+        } else {
+            race_rejected += 1;
+        }
+        if ev.samples.len() < 3 && r.switches > 4 {
+            ev.sample(json!({"race": r.log}));
+        }
+        for f in r.findings {
+            violations.push(Violation {
+                property: PROP.into(),
+                class: f.class.clone(),
+                key: f.key.clone(),
+                what: f.what.clone(),
+                replay: json!({"kind": "c15-race", "race_index": r.idx, "project_seed": opts.seed, "class": f.class, "key": f.key, "log": r.log}),
+            });
+        }
+    }
+    ev.fault("schedule:racing-build-vs-reader", race_ok + race_rejected);
+    ev.probe("race_reader_succeeded", race_ok);
+    ev.probe("race_reader_rejected_torn_or_stale_input", race_rejected);
+    ev.probe("race_context_switches", race_switches);
+    ev.extra.insert("races".into(), json!(race_ok + race_rejected));
+    ev.extra.insert("distinct_race_interleavings".into(), json!(race_distinct.len()));
     ev.extra.insert("histories".into(), json!(n));
     ev.extra.insert("operations".into(), json!(ops_total));
     ev.extra.insert("json_nodes_corrupted_one_by_one".into(), json!(fields));
@@ -1174,6 +1217,19 @@ pub fn run(opts: &Opts) -> i32 {
 pub fn replay(file: &Value) -> bool {
     let r = &file["replay"];
     let sb = Sandbox::new("c15replay").expect("sandbox");
+    if r["kind"] == "c15-race" {
+        let res = race_once(&sb, r["project_seed"].as_u64().unwrap_or(0), r["race_index"].as_u64().unwrap_or(0));
+        let Some(res) = res else { return false };
+        for l in &res.log {
+            println!("  {l}");
+        }
+        for f in &res.findings {
+            println!("replayed: {}", f.what);
+        }
+        let class = r["class"].as_str().unwrap_or("").to_string();
+        let key = r["key"].clone();
+        return res.findings.iter().any(|f| f.class == class && f.key == key);
+    }
     let ops: Vec<Op> = match serde_json::from_value(r["ops"].clone()) {
         Ok(o) => o,
         Err(e) => {
@@ -1204,4 +1260,174 @@ pub fn replay(file: &Value) -> bool {
 #[allow(dead_code)]
 fn unused(_: Files, _: u64) -> u64 {
     purpose("x")
+}
+
+
+// ---------------------------------------------------------------------------------------------
+// racing processes: a `link` (or a dependent's `build`) overlaps a `build` at syscall granularity
+// ---------------------------------------------------------------------------------------------
+
+pub struct RaceResult {
+    pub idx: u64,
+    pub findings: Vec<Finding>,
+    pub procs: u64,
+    pub schedule_fp: String,
+    pub switches: usize,
+    pub reader_ok: bool,
+    pub log: Vec<String>,
+}
+
+/// One race: the store holds a consistent old generation; package d gets an interface-changing
+/// edit; `build d` runs concurrently with a reader (link of all cores, or build of a dependent),
+/// both with small chunked I/O, under a seeded scheduler that picks who performs the next
+/// sandbox syscall. Whatever the reader accepts must be made of genuine, mutually consistent
+/// artifacts — torn or mixed-generation reads may only be rejected.
+pub fn race_once(sb: &Sandbox, seed: u64, idx: u64) -> Option<RaceResult> {
+    let mut p = Prng::derive(seed, idx, "c15-race");
+    let (proj, _, _, _) = project_for(seed ^ 0xace0, idx);
+    let n = proj.pkgs.len();
+    // a package with a dependent
+    let mut pairs = Vec::new();
+    for c in 0..n {
+        for &d in &proj.pkgs[c].imports {
+            pairs.push((c, d));
+        }
+    }
+    if pairs.is_empty() {
+        return None;
+    }
+    let (c, d) = *p.pick(&pairs);
+    let mut w = new_world(sb, &proj);
+    for pi in (0..n).rev() {
+        w.check_or_build(pi, 100 + pi as u64, true, None, false);
+    }
+    let old: Files = sb.snapshot().into_iter().filter(|(k, _)| k.starts_with("store/")).collect();
+    // interface-changing edit of d; learn the new generation of d and of everything above it
+    let edit = Edit::AddFn { p: d };
+    w.apply(&Op::Edit { edit, uniq: 900 });
+    w.check_or_build(d, 200, true, None, false);
+    for pi in (0..n).rev() {
+        if pi != d {
+            w.check_or_build(pi, 300 + pi as u64, true, None, false);
+        }
+    }
+    // put the old generation back: the race starts from a consistent old store
+    for (k, v) in &old {
+        sb.write(k, v);
+    }
+    let dn = w.name(d);
+    let cn = w.name(c);
+    let chunk = [16usize, 64, 256, 1024, 4096][p.usize(5)];
+    let writer_args = {
+        let files: Vec<String> = w.proj.pkg_files(d).iter().map(|f| sb.path(&format!("src/{f}"))).collect();
+        let mut a = vec![s("goml"), s("build"), s("--package"), dn.clone(), s("--input")];
+        a.extend(files);
+        a.push(s("--interface-path"));
+        a.push(sb.path("store"));
+        a.push(s("--output"));
+        a.push(sb.path(&format!("store/{dn}")));
+        a
+    };
+    let reader_is_link = p.chance(1, 2);
+    let reader_args = if reader_is_link {
+        let cores: Vec<String> = (0..n).map(|i| format!("store/{}.core", w.name(i))).collect();
+        ops::link_args(sb, &cores, "linked/main.go", &mut p)
+    } else {
+        let files: Vec<String> = w.proj.pkg_files(c).iter().map(|f| sb.path(&format!("src/{f}"))).collect();
+        let mut a = vec![s("goml"), s("build"), s("--package"), cn.clone(), s("--input")];
+        a.extend(files);
+        a.push(s("--interface-path"));
+        a.push(sb.path("store"));
+        a.push(s("--output"));
+        a.push(sb.path(&format!("race/{cn}")));
+        a
+    };
+    let specs = vec![
+        ProcSpec { entropy: p.next_u64(), readdir: 1, chunk, ..Default::default() },
+        ProcSpec { entropy: p.next_u64(), readdir: 2, chunk, capture_reads: true, ..Default::default() },
+    ];
+    let bodies: Vec<Box<dyn FnOnce() -> anyhow::Result<crate::cli::CliOut> + Send>> = vec![
+        Box::new(move || crate::cli::entry(&writer_args)),
+        Box::new(move || crate::cli::entry(&reader_args)),
+    ];
+    let mut sched = Prng::new(p.next_u64());
+    let (results, schedule) = crate::world::run_concurrent(&sb.root, specs, bodies, &mut sched, None);
+    let mut log = vec![format!(
+        "race: build {dn} (new interface) || {} with chunk={chunk}, {} scheduling decisions",
+        if reader_is_link { "link all".to_string() } else { format!("build {cn}") },
+        schedule.len()
+    )];
+    let reader = &results[1];
+    let reader_ok = reader.exit == Exit::Ok;
+    log.push(format!("writer -> {}, reader -> {}", results[0].exit.class(), reader.exit.class()));
+    if let Exit::Panicked(m) = &reader.exit {
+        w.st.anomalies.push(format!("reader panicked in a race: {m}"));
+    }
+    let mut findings = Vec::new();
+    if reader_ok {
+        if reader_is_link {
+            // what the linker actually read
+            let mut infos: Vec<ArtInfo> = Vec::new();
+            for (key, bytes) in &reader.reads {
+                if !key.contains(".core#") {
+                    continue;
+                }
+                match w.genuine(bytes) {
+                    Some(i) if i.core => infos.push(i.clone()),
+                    _ => findings.push(Finding {
+                        class: "torn-read-accepted".into(),
+                        key: json!({"class": "torn-read-accepted", "by": "link"}),
+                        what: format!("C15: `link` racing `build {dn}` accepted bytes of {} that are no genuine core (torn or mixed read)", key),
+                        at_op: 0,
+                    }),
+                }
+            }
+            for cinfo in &infos {
+                for (dep, want) in &cinfo.deps {
+                    if let Some(dc) = infos.iter().find(|x| x.pkg == *dep) {
+                        if dc.iface_id != *want {
+                            findings.push(Finding {
+                                class: "unsafe-link".into(),
+                                key: json!({"class": "unsafe-link", "how": "race-mixed-generations"}),
+                                what: format!("C15: `link` racing `build {dn}` succeeded on a mix of generations: {} was built against another interface of {dep}", cinfo.pkg),
+                                at_op: 0,
+                            });
+                        }
+                    }
+                }
+            }
+        } else {
+            // every interface the dependent's build actually read must be a genuine interface
+            // (old or new generation) — a successful build on torn bytes is a violation
+            for (key, bytes) in &reader.reads {
+                if !key.contains(".interface#") {
+                    continue;
+                }
+                match w.genuine(bytes) {
+                    Some(i) if !i.core => {}
+                    _ => findings.push(Finding {
+                        class: "torn-read-accepted".into(),
+                        key: json!({"class": "torn-read-accepted", "by": "build"}),
+                        what: format!("C15: `build {cn}` racing `build {dn}` succeeded although it read bytes of {key} that are no genuine interface (torn or mixed read)"),
+                        at_op: 0,
+                    }),
+                }
+            }
+        }
+    }
+    let mut switches = 0;
+    for wv in schedule.windows(2) {
+        if wv[0] != wv[1] {
+            switches += 1;
+        }
+    }
+    Some(RaceResult {
+        idx,
+        findings,
+        procs: w.st.procs + 2,
+        schedule_fp: sha(format!("{idx}:{:?}", schedule).as_bytes()),
+        switches,
+        reader_ok,
+        log,
+    })
 }
